@@ -21,7 +21,8 @@ RULE = ('(1) exhaustive: every string of <= 4 characters over each notation\'s a
         'renderings (delete / duplicate / swap / insert a character, unbalance a parenthesis, digit runs up to 6000); (3) predicate '
         'stores: empty, drawn, frozen empty, auto_preds on / off; (4) histories: 0-5 earlier parses on the same parser, then the same '
         'string on a fresh parser holding a copy of the store, optionally with an unrelated second parser (own store, either notation) used in '
-        'between; the standard parser also with drop_parens=False (then every binary operator needs its parentheses); (4b) deep nesting: 8 shapes '
+        'between; the standard parser also with drop_parens=False (then every binary operator needs its parentheses); (4a) two parsers built over one store object, interleaved, with clashing arities: every result must be the same whether the store starts '
+        'empty or with a declaration of a symbol that occurs nowhere (irrelevant-declaration invariance); (4b) deep nesting: 8 shapes '
         'per notation (prefix chains, left / right nested binaries, quantified, ill-formed) at every depth 1..H and 8 stack alignments with the '
         'recursion limit lowered to current depth + H, so that the stack is exhausted at every possible point of the parse; (5) atheris / libFuzzer byte-level target (thorough tier; empty corpus '
         'and the literal strings of test/lang as seeds). Oracle: the result is a Sentence or the exception is a ParseError (subclasses '
@@ -295,6 +296,62 @@ def binder_faults(data, notation):
     return A.pol(s) if notation == 'polish' else A.std(s, top=data.draw(st.booleans()))
 
 
+def shared_store_scenario(steps, extra):
+    """Two parsers built over ONE Predicates object (``extra``: unrelated declarations it holds from the start); each step
+    is (parser index, notation, text).  Returns the list of outcomes and the final store without the unrelated entries."""
+    from pytableaux.lang import Parser, Predicates
+    store = Predicates([tuple(x) for x in extra])
+    parsers = {}
+    outs = []
+    for who, notation, text in steps:
+        p = parsers.get((who, notation))
+        if p is None:
+            p = parsers[who, notation] = Parser(notation, store)
+        o = outcome(p, text)
+        outs.append((o[0], A.to_json(o[1]) if o[0] == 'ok' else o[1]))
+    final = sorted(A.pred_from_lib(x) for x in store if list(A.pred_from_lib(x)) not in [list(e) for e in extra])
+    return outs, final
+
+
+UNRELATED = [[3, 31337, 2]]
+
+
+def check_shared_store(steps):
+    """Irrelevant-declaration invariance: a declaration of a symbol that occurs in none of the inputs must not change any
+    result.  (It does when an empty store handed to a parser is treated differently from a non-empty one.)"""
+    out = []
+    try:
+        a, fa = shared_store_scenario(steps, [])
+        b, fb = shared_store_scenario(steps, UNRELATED)
+    except Exception as e:
+        return [(f'C13|shared-store-raises|{type(e).__name__}', f'steps {steps}: {e!r}')]
+    for i, (x, y) in enumerate(zip(a, b)):
+        if x[0] == 'BAD' or y[0] == 'BAD':
+            out.append((f'C13|raises|{steps[i][1]}|{x[1] if x[0] == "BAD" else y[1]}', f'shared store, step {i} {steps[i]}: {x} / {y}'))
+            break
+        if x != y:
+            out.append((f'C13|irrelevant-declaration-changes-result|{steps[i][1]}',
+                        f'two parsers over one store, steps {steps}: step {i} gives {x[:2]} when the store starts empty but {y[:2]} when it '
+                        f'starts with the unrelated declaration {UNRELATED[0]}'))
+            break
+    else:
+        if fa != fb:
+            out.append(('C13|irrelevant-declaration-changes-store', f'two parsers over one store, steps {steps}: the store ends as {fa} when it '
+                        f'starts empty but as {fb} when it starts with the unrelated declaration {UNRELATED[0]}'))
+    return out
+
+
+def arity_string(data, notation):
+    "A short predication whose symbol / arity may clash with other strings of the same scenario."
+    i = data.draw(st.integers(0, 1))
+    k = data.draw(st.integers(1, 3))
+    consts = [A.const(data.draw(st.integers(0, 2))) for _ in range(k)]
+    s = ('P', (i, 0, k), tuple(consts))
+    if data.draw(st.integers(0, 3)) == 0:
+        s = A.neg(s)
+    return A.pol(s) if notation == 'polish' else A.std(s)
+
+
 def mutate(data, text, alpha):
     kind = data.draw(st.integers(0, 9))
     if not text:
@@ -334,7 +391,20 @@ def run_random(shard, acc):
     def body(data):
         notation = data.draw(st.sampled_from(['polish', 'standard']))
         alpha = alphabet(notation, thin=False) + FOREIGN + 'é'
-        mode = data.draw(st.integers(0, 4))
+        mode = data.draw(st.integers(0, 5))
+        if mode == 5:
+            notes = [notation, data.draw(st.sampled_from(['polish', 'standard']))]
+            steps = []
+            for _ in range(data.draw(st.integers(2, 5))):
+                who = data.draw(st.integers(0, 1))
+                text = arity_string(data, notes[who]) if data.draw(st.integers(0, 3)) else valid_renderings(data, notes[who])
+                steps.append([who, notes[who], text])
+            res = check_shared_store(steps)
+            acc.case(('shared', steps), nontrivial=len({w for w, _, _ in steps}) == 2, classes=('shared-store', 'mode=5'),
+                     sample=f'two parsers over one store: {steps}')
+            for fp, d in res:
+                acc.finding(fp, dict(kind='shared', steps=steps), d)
+            return
         if mode == 4:
             text = binder_faults(data, notation)
         elif mode == 0:
@@ -537,6 +607,8 @@ def replay(case):
         mk = dict(DEEP_SHAPES[case['notation']])[case['shape']]
         o = deep_outcome(case['notation'], mk(case['k']), case['headroom'], case['extra'])
         return [] if o in ('ok', 'ParseError') else [(f"C13|raises|{case['notation']}|{o}|deep-nesting", f"{case['shape']} k={case['k']}: {o}")]
+    if case['kind'] == 'shared':
+        return check_shared_store([list(x) for x in case['steps']])
     if case['kind'] == 'string':
         return check_string(case['notation'], case['text'])[0]
     return check_string(case['notation'], case['text'], case.get('store'), case.get('auto', True), case.get('frozen', False),
@@ -545,6 +617,10 @@ def replay(case):
 
 def shrink_candidates(case):
     if case['kind'] == 'deep':
+        return
+    if case['kind'] == 'shared':
+        for i in range(len(case['steps'])):
+            yield dict(kind='shared', steps=case['steps'][:i] + case['steps'][i + 1:])
         return
     t = case['text']
     if case.get('history'):
